@@ -568,3 +568,8 @@ func Ok_SecondPre(x int) int {
 	}
 	return TwoPre(1, x)
 }
+
+// Two index expressions on one source line: each is a check of its own (Bad_: only the first index is in range).
+func Bad_TwoIndexLine(a []int, i, j int) int { return a[i] + a[j] }
+
+func Ok_TwoIndexLine(a []int, i, j int) int { return a[i] + a[j] }
